@@ -219,7 +219,13 @@ Inductive case :=
 (** deterministic program run with a short real BatchTimeout: the timer may cut batches anywhere,
     so only the concatenation of the batches (FIFO, nothing lost or doubled), the returns and the
     history are judged (one-sided w.r.t. timing) *)
-| CDetT (c : config) (dobs : bool) (ops : list dop) (rets : list ret) (ids : list id) (nsd : N) (h : history).
+| CDetT (c : config) (dobs : bool) (ops : list dop) (rets : list ret) (ids : list id) (nsd : N) (h : history)
+(** drop storm: [ended] sampled spans were ended by many goroutines at once on a full non-blocking
+    queue (all Ends returned), then everything was flushed and one more span exported, so the counter
+    read at the last export is final.  Quiescent reading of the accounting clauses of Spec.v (every
+    ended sampled span is exported exactly once or dropped AND counted): with every End returned
+    before that read, [drop_account]'s two bounds meet: exported + counter = ended. *)
+| CStorm (c : config) (ended : N) (batches : list (list id * nat)).
 
 Definition flag (b : bool) (code : N) : list N := if b then [] else [code].
 
@@ -241,6 +247,11 @@ Definition check_case (x : case) : list N :=
       | None => [V_MISMATCH]
       end ++ judge dobs c h
   | CFree c dobs h => judge dobs c h
+  | CStorm c ended bs =>
+      let ids := flat_map fst bs in
+      flag (nodupb ids &&
+            forallb (fun b => (1 <=? length (fst b)) && (length (fst b) <=? maxb c)) bs &&
+            N.eqb (N.of_nat (length ids + snd (last bs ([], 0)))) ended) V_SPECFAIL
   | CDetT c dobs ops rets ids nsd h =>
       match run_det c ops with
       | Some s => flag (list_eqb ret_eqb (flat_map ev_ret (hist s)) rets &&
